@@ -35,6 +35,7 @@ type vSrvCarrier struct {
 	sendErr   error
 	drainBlks int
 	onQuiesce func() // runs once every goroutine has come to rest, with the tunnel still up
+	pauseAt   int    // >0: before delivering script[pauseAt] everything is left to come to rest (the peer is slow)
 }
 
 func (c *vSrvCarrier) Context() context.Context { return c.ctx }
@@ -50,6 +51,11 @@ func (c *vSrvCarrier) Send(m *tunnelpb.ServerToClient) error {
 
 func (c *vSrvCarrier) Recv() (*tunnelpb.ClientToServer, error) {
 	if c.pos < len(c.script) {
+		if c.pauseAt > 0 && c.pos == c.pauseAt {
+			b0 := verifBlockedCount()
+			verifDrain()
+			c.drainBlks += verifBlockedCount() - b0
+		}
 		c.pos++
 		return c.script[c.pos-1], nil
 	}
@@ -118,6 +124,12 @@ func vHandlers(hl *vHandlerLog) grpchan.HandlerMap {
 		unary := func(srv any, ctx context.Context, dec func(any) error, _ grpc.UnaryServerInterceptor) (any, error) {
 			hl.calls = append(hl.calls, vInvocation{svc: srv.(*vSvcImpl).name, method: sn + "/u", ctx: ctx})
 			defer func() { hl.returns++ }()
+			if hl.readOne {
+				// generated code decodes the request first
+				if hl.readErr = dec(&wrapperspb.BytesValue{}); hl.readErr != nil {
+					return nil, hl.readErr
+				}
+			}
 			if hl.result != nil {
 				return nil, hl.result
 			}
